@@ -355,7 +355,12 @@ fn cli_roundtrip(bin: &std::path::Path, case: &Case, text: &str, c1: &Components
             let fac_owned = fac_cli.unwrap_or_else(|| fac.clone());
             let fac = &fac_owned;
             let rfa = ref_eval_parsed(c1, fac, k as f32, area as f32, case.lm).unwrap_or_default();
-            let rfb = ref_eval_parsed(c2, fac, k as f32, area as f32, case.lm).unwrap_or_default();
+            // the saved factor file keeps three decimals: the second run works with the rounded factors
+            let fac_read_back = match safe::parse_factors(&fac.to_string()) {
+                Out::Ok(f) => f,
+                _ => fac.clone(),
+            };
+            let rfb = ref_eval_parsed(c2, &fac_read_back, k as f32, area as f32, case.lm).unwrap_or_default();
             let rf = &rfa;
             let mut slack = report_slack(rf);
             for (p, a) in rfa.iter().filter(|(p, _)| p.starts_with("balance_m2.")) {
@@ -370,13 +375,13 @@ fn cli_roundtrip(bin: &std::path::Path, case: &Case, text: &str, c1: &Components
             let pct_line = |s: &str| -> Option<f64> { s.lines().find(|l| l.starts_with("Porcentaje renovable de la demanda de ACS")).and_then(|l| cli::numbers(l.split(':').nth(1).unwrap_or("")).first().copied()) };
             let without_pct = |s: &str| -> String { s.lines().filter(|l| !l.starts_with("Porcentaje renovable de la demanda de ACS")).collect::<Vec<_>>().join("\n") };
             let (_, noise) = dhw_noise_band(&case.spec);
-            let lib_pct = |c: &Components| -> Option<f64> {
+            let lib_pct = |c: &Components, fac: &Factors| -> Option<f64> {
                 let stripped = fac.clone().strip(c);
                 let ep = safe::eval(c, &stripped, k as f32, area as f32, case.lm).ok()?;
                 safe::guard(|| cteepbd::cte::fraccion_renovable_acs_nrb(&ep)).ok().map(|x| 100.0 * x as f64)
             };
-            for (which, out, comps) in [("original", &r1.stdout, c1), ("saved", &r2.stdout, c2)] {
-                if let (Some(p), Some(l)) = (pct_line(&rep(out)), lib_pct(comps)) {
+            for (which, out, comps, fc) in [("original", &r1.stdout, c1, fac), ("saved", &r2.stdout, c2, &fac_read_back)] {
+                if let (Some(p), Some(l)) = (pct_line(&rep(out)), lib_pct(comps, fc)) {
                     if l.is_finite() && !((p - l).abs() <= 0.1502 + 100.0 * noise + 1e-4 * l.abs()) {
                         t.violation("C18.saved_files_give_other_results", format!("run on the {which} files prints a renewable DHW percentage of {p}, the library computes {l} for that data"), || wit(json!({"first": rep(&r1.stdout), "second": rep(&r2.stdout)})));
                     }
